@@ -128,6 +128,14 @@ def pin_counting(case):
             p.link("build", x, ("gpg", x + "!"), p.art("src/other.c"), P, faked=hk.GPG_EXPIRED_FAKED_TIME)
             p.link("build", k0.keyid, k0, M, P)
             tags, expect = ["gpg_expired:master"], "accept" if thr == 1 else "ThresholdVerificationError"
+        elif case == "expired_master_live_subkey":
+            # D2c: the only authorised key is an EXPIRED master; the link is signed by one of its subkeys that carries no
+            # expiry of its own (gpg itself refuses to use it: the signature is made under a faked clock)
+            x, sub = hk.GPG_EXPIRED, hk.GPG_EXP_SUB_LIVE
+            p.store({x: g.pub(x)})
+            p.step("build", [x], threshold=1)
+            p.link("build", sub, ("gpg", sub + "!"), M, P, faked=hk.GPG_EXPIRED_FAKED_TIME)
+            tags, expect = ["gpg_expired:master_live_subkey"], None      # judged in check_pinned (known finding D2c)
         elif case == "subkey_file_loaded":
             m = hk.GPG_MASTER
             p.store({m: g.pub(m)})
@@ -173,7 +181,7 @@ PINNED = (
        ("D8:metablock", pin_d8(False)), ("D8:dsse", pin_d8(True))]
     + [("count:" + c, pin_counting(c)) for c in
        ("subkeys_count_once", "subkeys_count_once_enough", "master_and_subkey_files", "expired_skipped",
-        "expired_not_counted", "subkey_file_loaded", "invalid_not_counted", "invalid_next_to_enough_valid",
+        "expired_not_counted", "expired_master_live_subkey", "subkey_file_loaded", "invalid_not_counted", "invalid_next_to_enough_valid",
         "gpg_sigdict:gpg_oh_nibble", "gpg_sigdict:gpg_sig_upper", "gpg_sigdict:gpg_oh_nonhex", "gpg_sigdict:gpg_oh_odd",
         "gpg_sigdict:gpg_short_keyid_nonhex")]
 )
@@ -193,6 +201,18 @@ def check_pinned(ctx, pinned):
     if repro:
         ctx.known.append("D2b " + D2B_WHAT + " [reproduced: " + ", ".join(repro) + "]")
     summary["D2b_reproduced"] = repro
+    # D2c: a link signed by a subkey (without expiry of its own) of an EXPIRED master counts
+    r = by.get("count:expired_master_live_subkey")
+    if r is not None:
+        v = vscen.verdict(r["impl"][0])
+        open_known = {e["id"] for e in core.load_known("C02") if e.get("status") == "open"}
+        if v == "accept" and "D2c" in open_known:
+            ctx.known.append("D2c a link signed by a subkey that has no expiry of its own counts although its master key, the only "
+                             "authorised key, is expired (expiry is checked on the selected (sub)key only)")
+        elif v == "accept":
+            ctx.violation("link signed under an expired master key (by a subkey without own expiry) counts towards the threshold",
+                          vcore.replay_file(r))
+        summary["D2c_reproduced"] = v == "accept"
     return summary
 
 
